@@ -126,3 +126,48 @@ Proof. vm_compute. reflexivity. Qed.
 (* the analysis is not vacuous: a built-in that writes is NOT effect-free *)
 Example header_set_not_effect_free : ~ effect_free "header.set".
 Proof. intros [H _]. vm_compute in H. discriminate. Qed.
+
+(* ---- the ctx variables: distinct writable names of a scope are distinct cells ----
+   [wf] asks that no two names share a cell.  For the variables backed by a context field this is a
+   fact about interpreter/variable/<scope>.go: within what one scope can write (its own cases and the
+   all-scope ones it falls back to), no two names are assigned into the same field. *)
+From Falco Require Import Gen.StoreWritable.
+
+Definition cells_of (sc : string) : list (string * string) :=
+  match find (fun p => String.eqb (fst p) sc) writable with
+  | Some (_, l) => map (fun e => (fst e, fst (snd e))) (filter (fun e => negb (String.eqb (fst (snd e)) "")) l)
+  | None => []
+  end.
+(* the own case shadows the all-scope case of the same name *)
+Definition scope_cells (sc : string) : list (string * string) :=
+  cells_of sc ++ filter (fun e => negb (mem (fst e) (map fst (cells_of sc)))) (cells_of "all").
+
+Fixpoint nodupb (l : list string) : bool :=
+  match l with [] => true | x :: r => negb (mem x r) && nodupb r end.
+
+Lemma nodupb_NoDup : forall l, nodupb l = true -> NoDup l.
+Proof.
+  induction l as [|x r IH]; intros H; [constructor|].
+  simpl in H. apply andb_true_iff in H. destruct H as [Hx Hr].
+  constructor; [|apply IH; exact Hr].
+  intro Hin. apply mem_In in Hin. rewrite Hin in Hx. discriminate.
+Qed.
+
+Definition scopes : list string := ["recv"; "hash"; "hit"; "miss"; "pass"; "fetch"; "error"; "deliver"; "log"].
+
+Theorem writable_cells_distinct :
+  forall sc, In sc scopes ->
+    NoDup (map fst (scope_cells sc)) /\ NoDup (map snd (scope_cells sc)).
+Proof.
+  intros sc H.
+  assert (A : forallb (fun sc => nodupb (map fst (scope_cells sc)) && nodupb (map snd (scope_cells sc))) scopes = true)
+    by (vm_compute; reflexivity).
+  rewrite forallb_forall in A. specialize (A sc H). apply andb_true_iff in A.
+  split; apply nodupb_NoDup; tauto.
+Qed.
+
+Example writable_example :
+  In ("req.hash_always_miss", "HashAlwaysMiss") (scope_cells "recv") /\
+  In ("req.max_stale_if_error", "MaxStaleIfError") (scope_cells "recv") /\
+  In ("obj.response", "ObjectResponse") (scope_cells "error").
+Proof. vm_compute. intuition. Qed.
